@@ -128,6 +128,14 @@ func sameValD(a, b ssa.Value, d int) bool {
 	if a == b {
 		return true
 	}
+	// a load of a local cell that is assigned exactly once (variables captured by a
+	// closure live in such cells) is the value assigned
+	if v := singleAssigned(a); v != nil && v != a {
+		return sameValD(v, b, d+1)
+	}
+	if v := singleAssigned(b); v != nil && v != b {
+		return sameValD(a, v, d+1)
+	}
 	switch x := a.(type) {
 	case *ssa.FieldAddr:
 		if y, ok := b.(*ssa.FieldAddr); ok {
@@ -256,11 +264,10 @@ func pathAvoiding(fn *ssa.Function, from ssa.Instruction, target, avoid func(ssa
 	}
 	mkPath := func(b *ssa.BasicBlock) []*ssa.BasicBlock {
 		var rev []*ssa.BasicBlock
-		for x := b; x != nil; x = parent[x] {
+		onPath := map[*ssa.BasicBlock]bool{}
+		for x := b; x != nil && !onPath[x]; x = parent[x] {
+			onPath[x] = true
 			rev = append(rev, x)
-			if x == startB && parent[x] == nil {
-				break
-			}
 		}
 		for i, j := 0, len(rev)-1; i < j; i, j = i+1, j-1 {
 			rev[i], rev[j] = rev[j], rev[i]
